@@ -20,7 +20,7 @@ func init() {
 			`R02.6 index-space consistency: no integer flows both into a use as an index of the new build's file list and into a use as an index of the old build's (bowl, patcher, rediff, diff); R02.7 in the bowl, every MkdirAll of a path derived from a tlc.Dir entry is preceded on every path by Lstat of the same path. ` +
 			`R03.6 (shared) an append to the overlay bowl's work lists is protected by a completed search of the list itself. ` +
 			`R14.7 (shared) each field that OverlayPatchContext.Patch assigns is assigned before it is first read or is zero again on every success return (the bowl applies all overlays of a commit with one context). ` +
-			`NOT decided: that the commit result equals the new build, independence from map iteration order in applyTranspositions, kind changes (old non-empty directory -> new file).`,
+			`R02.9 (shared with C01) where a method of the overlay bowl creates a file (O_CREATE) every path to the open removes what stands at that path first. NOT decided: that the commit result equals the new build, independence from map iteration order in applyTranspositions, kind changes (old non-empty directory -> new file).`,
 		Assumptions: []string{
 			"file-system mutators are the screw/os functions OpenFile(with write flags)/Create/Remove/RemoveAll/Rename/Mkdir/MkdirAll/Symlink/Truncate/Chmod/WriteFile, FsPool.GetWriter and Container.Prepare",
 			"index spaces are recognised from the repository's naming convention: containers/fields whose name contains 'source' denote the new build, 'target' the old build",
@@ -687,6 +687,21 @@ func ruleCopiesTruncate(c *core.Ctx) {
 				nCp++
 				truncs := fl&oTrunc != 0
 				if !truncs {
+					// or the destination was removed before it is created: nothing to truncate
+					dst := openW.Call.Args[0]
+					isRm := func(x ssa.Instruction) bool {
+						rc, ok := x.(*ssa.Call)
+						if !ok || len(rc.Call.Args) < 1 {
+							return false
+						}
+						nm := core.CalleeName(rc)
+						return (strings.HasSuffix(nm, ".Remove") || strings.HasSuffix(nm, ".RemoveAll")) && (sameVal(rc.Call.Args[0], dst) || sameExpr(rc.Call.Args[0], dst))
+					}
+					if len(allInstrs(fn, isRm)) > 0 && core.FindPath(fn, nil, isInstr(openW), isRm) == nil {
+						truncs = true
+					}
+				}
+				if !truncs {
 					// or an explicit Truncate on the destination after the copy
 					core.Instrs(fn, func(x ssa.Instruction) {
 						if tc, ok := x.(*ssa.Call); ok && strings.HasSuffix(core.CalleeName(tc), ").Truncate") && core.FindPath(fn, cp, isInstr(x), nil) != nil {
@@ -695,7 +710,7 @@ func ruleCopiesTruncate(c *core.Ctx) {
 					})
 				}
 				c.Check(truncs, "R02.8", core.FnName(fn), "a whole-file copy truncates its destination", core.InstrPos(openW),
-					"destination opened with O_TRUNC (or truncated after the copy)", "a whole file is copied into a destination that was opened for writing without O_TRUNC and is not truncated afterwards: when the path already holds a longer file its tail survives the copy")
+					"destination opened with O_TRUNC, truncated after the copy, or removed before it is created", "a whole file is copied into a destination that was opened for writing without O_TRUNC and is not truncated afterwards: when the path already holds a longer file its tail survives the copy")
 			})
 		}
 		c.Floor("R02.8", "whole-file copies between opened files", nCp, 1)
